@@ -5,6 +5,7 @@ package main
 import (
 	"fmt"
 	"go/constant"
+	"go/token"
 	"go/types"
 	"strconv"
 	"strings"
@@ -81,6 +82,14 @@ func (x *fnCtx) lookupName(env *specEnv, name string) (*Val, bool) {
 			return nb.v, true
 		}
 	}
+	if name == "$v" || name == "$k" {
+		// the element (key) variable of the innermost range loop, independent of its source name
+		if env.fr != nil {
+			if v, ok := x.rangeVar(env, name == "$k"); ok {
+				return v, true
+			}
+		}
+	}
 	if nb, ok := env.names[name]; ok {
 		if nb.isAddr {
 			return x.loadH(env.heap, x.addrOf(nb.v)), true
@@ -98,6 +107,44 @@ func (x *fnCtx) lookupName(env *specEnv, name string) (*Val, bool) {
 					v := freshVal(t, "unbound."+name, false)
 					env.st.ghost[name] = v
 					return v, true
+				}
+			}
+		}
+	}
+	return nil, false
+}
+
+// rangeVar finds the value (or key) of the current iteration of a range loop of the function:
+// the load of &X[rangeindex+1] (slices) or the extract of a map iterator's next tuple.
+func (x *fnCtx) rangeVar(env *specEnv, key bool) (*Val, bool) {
+	fr := env.fr
+	for _, b := range x.fn.Blocks {
+		for _, in := range b.Instrs {
+			switch v := in.(type) {
+			case *ssa.UnOp:
+				if key || v.Op != token.MUL {
+					continue
+				}
+				ia, ok := v.X.(*ssa.IndexAddr)
+				if !ok {
+					continue
+				}
+				bo, ok := ia.Index.(*ssa.BinOp)
+				if !ok {
+					continue
+				}
+				if phi, ok := bo.X.(*ssa.Phi); ok && phi.Comment == "rangeindex" {
+					if r, ok := fr.regs[v]; ok {
+						return r, true
+					}
+				}
+			case *ssa.Extract:
+				if nx, ok := v.Tuple.(*ssa.Next); ok && !nx.IsString {
+					if (key && v.Index == 1) || (!key && v.Index == 2) {
+						if r, ok := fr.regs[v]; ok {
+							return r, true
+						}
+					}
 				}
 			}
 		}
